@@ -4,7 +4,7 @@
     [widths_ok] and ALL keys with [key_ok] (distinct odd primes p, q below 2^wP with gcd(pq, (p-1)(q-1)) = 1:
     p<q and p>q, moduli of 2k and 2k-1 bits alike). *)
 From Coq Require Import ZArith List.
-From SL Require Import Lib.Base Model.Paillier Proofs.PaillierNT Proofs.PaillierWidth Proofs.PaillierDec Proofs.PaillierHom Proofs.PaillierExamples.
+From SL Require Import Lib.Base Model.Paillier Proofs.PaillierNT Proofs.PaillierWidth Proofs.PaillierDec Proofs.PaillierHom Proofs.PaillierExamples Proofs.PaillierPrimes.
 Local Open Scope Z_scope.
 
 (** the ciphertext of m under r is ((1 + m N) r^N) mod N^2 (no truncation by any width) *)
@@ -126,4 +126,11 @@ Theorem key_ok_32bit : key_ok cfg512 4294967291 4294967279 /\ key_ok cfg512 2147
 Proof. exact (conj key_ok_32bit_gt key_ok_32bit_lt). Qed.
 Check key_ok_32bit : key_ok cfg512 4294967291 4294967279 /\ key_ok cfg512 2147483659 3000000019.
 Print Assumptions key_ok_32bit.
+
+(** non-vacuity: two pairs of 64-bit primes (p>q with a 128-bit modulus, p<q with a 127-bit modulus); primality by
+    Pocklington certificates checked in the kernel (Proofs/PaillierPrimes.v) *)
+Theorem key_ok_64bit : key_ok cfg512 17381996728290903239 16889554716292614701 /\ key_ok cfg512 9446275134106098649 9873303963077819897.
+Proof. exact (conj key_ok_64bit_gt key_ok_64bit_lt). Qed.
+Check key_ok_64bit : key_ok cfg512 17381996728290903239 16889554716292614701 /\ key_ok cfg512 9446275134106098649 9873303963077819897.
+Print Assumptions key_ok_64bit.
 
